@@ -94,7 +94,14 @@ TextCases ==
   {[prog |-> <<>>, data |-> EmptyMap, fam |-> "dectext", text |-> d.sign \o d.whole \o "." \o d.frac,
     want |-> IF CanonDec(d.sign, d.whole, d.frac) = "-0" THEN "-0" ELSE CanonDec(d.sign, d.whole, d.frac)] : d \in DecTexts}
 
-Cases == PathCases \cup IndexCases \cup SpecialCases \cup LitCases \cup TextCases
+\* size of a string counts characters: strings given as code points (e-acute, u-umlaut, a combining mark, an emoji)
+CpStr(cs) == [k |-> "str", s |-> cs]
+StrSizeCases ==
+  {[prog |-> <<Out(Var("w", <<K("size")>>)), [t |-> "text", c |-> "|"], Out(Var("o", <<K("w"), K("size")>>))>>,
+    data |-> [q \in {"w", "o"} |-> IF q = "w" THEN CpStr(cs) ELSE Obj([q2 \in {"w"} |-> CpStr(cs)])], fam |-> "strsize"] :
+      cs \in {<<>>, <<97>>, <<233>>, <<90, 252, 114, 105, 99, 104>>, <<101, 769>>, <<128512>>, <<97, 128512, 98>>, <<26085, 26412>>}}
+
+Cases == PathCases \cup IndexCases \cup SpecialCases \cup LitCases \cup TextCases \cup StrSizeCases
 
 VARIABLE case
 allvars == <<vars, case>>
